@@ -52,6 +52,20 @@ pub fn emit(kind: &str, fields: &[(&str, String)]) {
     EVENTS.with(|ev| ev.borrow_mut().push(s));
 }
 
+/// How many `mrow`s that canonicalization added (`data-changed='added'`) are in the tree below (and including) `mathml`.
+pub fn count_added_rows(mathml: sxd_document::dom::Element) -> usize {
+    let mut n = 0;
+    if mathml.name().local_part() == "mrow" && mathml.attribute_value("data-changed") == Some("added") {
+        n += 1;
+    }
+    for child in mathml.children() {
+        if let sxd_document::dom::ChildOfElement::Element(e) = child {
+            n += count_added_rows(e);
+        }
+    }
+    return n;
+}
+
 /// JSON string literal for `s`.
 pub fn json_str(s: &str) -> String {
     let mut out = String::with_capacity(s.len() + 2);
